@@ -767,6 +767,7 @@ fn do_new_epoch(s: &mut Hub, ctx: &mut Ctx, caller: &str, fault: Fault, opname: 
     // ---- C09: roll-over of the epoch that leaves the grace window
     ctx.eval("C09");
     let dist_delta = post.bal[&s.distributor][0] as i128 - pre.bal[&s.distributor][0] as i128;
+    let dist_deltas: Vec<i128> = (0..3).map(|k| post.bal[&s.distributor][k] as i128 - pre.bal[&s.distributor][k] as i128).collect();
     let g = s.model.grace as usize;
     let expiring: Option<usize> = if n + 1 > g && g >= 1 { Some(n - g) } else { None }; // index of id n+1-g
     let whale = s.assets[0].clone();
@@ -774,7 +775,12 @@ fn do_new_epoch(s: &mut Hub, ctx: &mut Ctx, caller: &str, fault: Fault, opname: 
     for info in infos_of(&[&new.total, &rolled]) {
         let t = amount_of(&new.total, &info);
         let rl = amount_of(&rolled, &info);
-        let transfer = if info == whale { dist_delta } else { 0 };
+        // whatever reached the distributor in this asset during the creation (the distribution asset
+        // may have been switched by the owner, older epochs then still hold the previous one)
+        let transfer = match s.assets.iter().position(|x| *x == info) {
+            Some(k) if s.model.dist_switched => dist_deltas[k],
+            _ => if info == whale { dist_delta } else { 0 },
+        };
         if t as i128 != transfer.saturating_add(rl as i128) {
             let dsc = format!(
                 "epoch {}: total {t} {} != collector->distributor transfer {transfer} + remainder {rl} of expiring epoch {:?}",
@@ -823,8 +829,14 @@ fn do_new_epoch(s: &mut Hub, ctx: &mut Ctx, caller: &str, fault: Fault, opname: 
         return;
     }
     // ---- C10: the pipeline, from balances, ledgers and transfer events
-    ctx.eval("C10");
-    check_pipeline(s, ctx, &pre, &post, &r.outcome, &new, n as u64 + 1, amount_of(&rolled, &whale));
+    if s.model.dist_switched {
+        // the pipeline oracle is written for uwhale as the distribution asset; after a switch only the
+        // asset-generic ledger checks above (and the claim checks) apply
+        ctx.probe("pipeline_checks_skipped_after_distribution_asset_switch");
+    } else {
+        ctx.eval("C10");
+        check_pipeline(s, ctx, &pre, &post, &r.outcome, &new, n as u64 + 1, amount_of(&rolled, &whale));
+    }
 
     // adopt
     if let Some(x) = expiring {
@@ -1233,6 +1245,54 @@ pub fn apply(s: &mut Hub, step: &Step, ctx: &mut Ctx) {
             }
             ctx.trace(&format!("set_grace:{value}:{by_owner}:{}", d.r.outcome.kind()));
             what = "set_grace".into();
+        }
+        Op::SetDistAsset { asset, by_owner } => {
+            let a = *asset % 3;
+            let sender = if *by_owner { OWNER } else { who };
+            let msg = wasm_exec(
+                &s.distributor,
+                &fee_distributor::ExecuteMsg::UpdateConfig {
+                    owner: None,
+                    bonding_contract_addr: None,
+                    fee_collector_addr: None,
+                    grace_period: None,
+                    distribution_asset: Some(s.assets[a].clone()),
+                    epoch_config: None,
+                },
+                vec![],
+            );
+            let d = run(s, ctx, "set_distribution_asset", sender, vec![msg], step.fault, false);
+            let ok = d.r.outcome.is_ok();
+            ctx.eval("C10");
+            if ok && !*by_owner {
+                ctx.fail("C10", "config_update", "accepted_from_stranger", None, format!("distribution asset update by {sender} was accepted"));
+            }
+            let conf: Result<fee_distributor::Config, String> = query(&s.app, &s.distributor, &fee_distributor::QueryMsg::Config {});
+            match conf {
+                Err(e) => fail_all(ctx, "config_query", "query_failed", format!("after set_distribution_asset: {e}")),
+                Ok(c) => {
+                    let now_idx = s.assets.iter().position(|x| *x == c.distribution_asset);
+                    match now_idx {
+                        Some(i) => {
+                            if i != s.model.dist_asset {
+                                s.model.dist_switched = true;
+                                ctx.probe("distribution_asset_switched_mid_history");
+                                ctx.state_of(&format!("dist_asset:{}:{i}:{}", s.model.dist_asset, s.model.epochs.len()));
+                            }
+                            if ok && i != a {
+                                ctx.fail("C10", "config_update", "config_ne_update", None, format!("accepted update to distribution asset {a}: the configuration reads asset {i}"));
+                            }
+                            if !ok && i != s.model.dist_asset {
+                                ctx.fail("C10", "config_update", "rejected_but_changed", None, format!("rejected distribution asset update by {sender} changed the configuration"));
+                            }
+                            s.model.dist_asset = i;
+                        }
+                        None => fail_all(ctx, "config_query", "unknown_distribution_asset", format!("{:?}", c.distribution_asset)),
+                    }
+                }
+            }
+            ctx.trace(&format!("set_dist_asset:{a}:{by_owner}:{}", d.r.outcome.kind()));
+            what = "set_distribution_asset".into();
         }
         Op::SetDuration { duration_ns, by_owner } => {
             let sender = if *by_owner { OWNER } else { who };
